@@ -5,6 +5,10 @@
    * where the day loop of LegacyTimePeriod::ScriptFunc starts and what it keeps:
        first local day of the region, every produced segment                          pinned form, finding wrap-first-day
        the local day before it (tm_mday--, mktime), only segments with end > begin    (repo_patches/C08-wrap-first-day.diff)
+   * what TimePeriod::UpdateRegion does when valid_end already lies beyond the requested end (lib/icinga/timeperiod.cpp):
+       "if (end < GetValidEnd()) return;"                                   pinned form, finding stale-reference
+       "if (end < GetValidEnd()) extend = false;" + the own computation under "if (extend)" + Merge(.., .., !extend) with
+       Merge cutting every segment off at valid_end when clip is set         (repo_patches/C08-merge-references-every-round.diff)
 A form that is not recognised is emitted as None: the model then takes the pinned branch and the theorem
 C08_source_forms_recognised stops compiling."""
 import re
@@ -73,4 +77,31 @@ def run(rd, emit, log, enum_values, ti_default):
     body += ('(* true = the day loop of ScriptFunc starts one local day before the first day of the region and keeps the segments that end\n'
              '   after the region\'s begin; false = it starts at the first local day of the region and keeps every segment *)\n')
     body += 'Definition f_tp_loop_lookback : option bool := %s.\n' % ('Some ' + lb if lb else 'None')
+    # ---- TimePeriod::UpdateRegion: early return or merge in every round
+    tsrc = rd('lib/icinga/timeperiod.cpp')
+    ma = None
+    bu = fn_body(tsrc, r'void\s+TimePeriod::UpdateRegion\s*\(')
+    bm = fn_body(tsrc, r'void\s+TimePeriod::Merge\s*\(')
+    if bu and bm:
+        su, sm = strip(bu), strip(bm)
+        loop_plain = 'for(constDictionary::Ptr&segment:segments){include?AddSegment(segment):RemoveSegment(segment);}'
+        loop_clip = ('for(constDictionary::Ptr&segment:segments){if(clip){doublesbegin=segment->Get("begin");doublesend=segment->Get("end");'
+                     'doublelimit=GetValidEnd();if(sbegin>=limit)continue;if(send>limit)send=limit;'
+                     'include?AddSegment(sbegin,send):RemoveSegment(sbegin,send);continue;}include?AddSegment(segment):RemoveSegment(segment);}')
+        adjust = 'if(begin<GetValidEnd())begin=GetValidEnd();'
+        own = 'RemoveSegment(begin,end);if(segments){ObjectLockdlock(segments);for(constDictionary::Ptr&segment:segments){AddSegment(segment);}}'
+        if (adjust + 'if(end<GetValidEnd())return;' in su and 'extend' not in su and own in su
+                and su.count('Merge(timeperiod,!preferInclude);') == 1 and su.count('Merge(timeperiod,preferInclude);') == 1
+                and loop_plain in sm and 'clip' not in sm):
+            ma = 'false'
+        elif ('boolextend=true;' in su and adjust + 'if(end<GetValidEnd())extend=false;' in su and 'return' not in su
+                and 'if(extend){Array::Ptrsegments=GetUpdate()->Invoke({this,begin,end});ObjectLockolock(this);' + own + '}' in su
+                and su.count('Merge(timeperiod,!preferInclude,!extend);') == 1 and su.count('Merge(timeperiod,preferInclude,!extend);') == 1
+                and su.count('Merge(') == 2 and loop_clip in sm):
+            ma = 'true'
+    if ma is None:
+        log.append('C08: TimePeriod::UpdateRegion / Merge not recognised')
+    body += ('(* true = UpdateRegion merges the included / excluded periods (cut off at valid_end) also when valid_end already lies beyond the\n'
+             '   requested end; false = it returns early in that case *)\n')
+    body += 'Definition f_tp_merge_always : option bool := %s.\n' % ('Some ' + ma if ma else 'None')
     emit('Facts_c08.v', body)
